@@ -538,6 +538,8 @@ func (l *Lexer) shiftEndTag() []byte {
 func (l *Lexer) shiftXML(rawTag Hash) []byte {
 	inTag := true      // we start inside the svg or math start tag
 	inQuote := byte(0) // quotes delimit strings inside tags only, and a string ends at the same quote
+	depth := 1         // open elements with the name of the root, the subtree ends with the end tag of the root
+	isRaw := true      // the tag we are inside is a start tag with the name of the root
 	for {
 		c := l.r.Peek(0)
 		if inTag && c != 0 && (c == inQuote || inQuote == 0 && (c == '"' || c == '\'')) {
@@ -550,6 +552,13 @@ func (l *Lexer) shiftXML(rawTag Hash) []byte {
 		} else if inTag && inQuote == 0 && c == '>' {
 			inTag = false
 			l.r.Move(1)
+			if isRaw && l.r.Peek(-2) == '/' {
+				// self-closing: <svg/> is a complete subtree
+				isRaw = false
+				if depth--; depth == 0 {
+					return l.r.Shift()
+				}
+			}
 		} else if c == '<' && !inTag && l.r.Peek(1) == '/' {
 			mark := l.r.Pos()
 			l.r.Move(2)
@@ -560,9 +569,12 @@ func (l *Lexer) shiftXML(rawTag Hash) []byte {
 				l.r.Move(1)
 			}
 			if h := ToHash(parse.ToLower(parse.Copy(l.r.Lexeme()[mark+2:]))); h == rawTag { // copy so that ToLower doesn't change the case of the underlying slice
-				break
+				if depth--; depth == 0 {
+					break
+				}
 			}
 			inTag = true
+			isRaw = false
 		} else if c == '<' && !inTag && (l.at('<', '!', '-', '-') || l.at('<', '!', '[', 'C', 'D', 'A', 'T', 'A', '[')) {
 			// quotes and angle brackets inside comments and CDATA sections are plain text
 			isComment := l.r.Peek(2) == '-'
@@ -575,7 +587,19 @@ func (l *Lexer) shiftXML(rawTag Hash) []byte {
 			}
 		} else if c == '<' && !inTag {
 			inTag = true
+			mark := l.r.Pos()
 			l.r.Move(1)
+			for {
+				if c = l.r.Peek(0); !('a' <= c && c <= 'z' || 'A' <= c && c <= 'Z') {
+					break
+				}
+				l.r.Move(1)
+			}
+			// an element of the same name inside the subtree has an end tag of its own
+			isRaw = (c == ' ' || c == '\t' || c == '\n' || c == '\r' || c == '\f' || c == '/' || c == '>') && ToHash(parse.ToLower(parse.Copy(l.r.Lexeme()[mark+1:]))) == rawTag
+			if isRaw {
+				depth++
+			}
 		} else if c == 0 {
 			if l.r.Err() == nil {
 				l.err = parse.NewErrorLexer(l.r, "unexpected NULL character")
